@@ -6,5 +6,6 @@ verif_driver(drv_graph ${D}/graph.cc
   ${_T}/graph.cc ${_T}/graphalgorithm.cc ${_T}/graphvisitor.cc ${_T}/graph_bf_visitor.cc
   ${_T}/graph_df_visitor.cc ${_T}/graphdistvisitor.cc ${_T}/reducedgraph.cc ${_T}/reducededge.cc
   ${_T}/edgecontainer.cc ${_T}/edge.cc ${_T}/graphnode.cc
-  ${_C}/beadstructure.cc ${_C}/beadstructurealgorithms.cc)
+  ${_C}/beadstructure.cc ${_C}/beadstructurealgorithms.cc
+  ${_C}/beadmotif.cc ${_C}/beadmotifalgorithms.cc ${_C}/beadmotifconnector.cc)
 verif_sanitize(drv_graph)
